@@ -175,8 +175,19 @@ type Violation struct {
 const maxViolationsPerWorker = 400
 
 // RunWorker executes one shard in this process.
+// StopSentinel, when non-empty and VERIF_STOP_AT=N is set, makes the workers of one run stop
+// as soon as any of them has recorded N unlisted violations (used by the seeded-change self
+// test, which only needs to know whether a change is detected; such a run reports exhaustive=false).
+var StopSentinel string
+
+func stopAt() uint64 {
+	n, _ := strconv.ParseUint(os.Getenv("VERIF_STOP_AT"), 10, 64)
+	return n
+}
+
 func RunWorker(ck *Check, tier string, shard, n int, seed int64, deadline time.Time, tracePath string, findings []Finding) *WorkerOut {
 	start := time.Now()
+	stopN := stopAt()
 	out := &WorkerOut{Shard: shard, Hist: map[string]uint64{}, LegHist: map[string]uint64{}, Known: map[string]uint64{}}
 	var stop atomic.Bool
 	var all []uint64
@@ -201,6 +212,11 @@ func RunWorker(ck *Check, tier string, shard, n int, seed int64, deadline time.T
 			case <-t.C:
 				if time.Now().After(deadline) {
 					stop.Store(true)
+				}
+				if stopN > 0 && StopSentinel != "" {
+					if _, err := os.Stat(StopSentinel); err == nil {
+						stop.Store(true)
+					}
 				}
 				if c := current.Load(); c != nil && time.Since(time.Unix(0, lastProgress.Load())) > 120*time.Second {
 					select {
@@ -250,6 +266,10 @@ func RunWorker(ck *Check, tier string, shard, n int, seed int64, deadline time.T
 				out.ViolationN++
 				if len(out.Violations) < maxViolationsPerWorker {
 					out.Violations = append(out.Violations, v)
+				}
+				if stopN > 0 && out.ViolationN >= stopN && StopSentinel != "" {
+					os.WriteFile(StopSentinel, []byte("stop"), 0644)
+					stop.Store(true)
 				}
 			}
 		}
